@@ -18,7 +18,7 @@ func verifMarker(k int) packager.Package {
 // others are retained exactly once, at the tail.
 func H_c11_append() {
 	t := verifNewTeamserver(true)
-	n := nondet_choice("n", 4)
+	n := nondet_choice("n", verif_bound("retained-events-max", 3, 8)+1)
 	for i := 0; i < n; i++ {
 		t.EventsList = append(t.EventsList, verifMarker(i))
 	}
@@ -53,7 +53,7 @@ func H_c11_append() {
 // order, then exactly the live sessions.
 func H_c11_replay() {
 	t := verifNewTeamserver(true)
-	n := nondet_choice("n", 4)
+	n := nondet_choice("n", verif_bound("retained-events-max", 3, 8)+1)
 	for i := 0; i < n; i++ {
 		t.EventsList = append(t.EventsList, verifMarker(i))
 	}
@@ -90,15 +90,15 @@ func H_c11_replay() {
 // one frame each.
 func H_c11_fanout() {
 	t := verifNewTeamserver(true)
-	n := 1 + nondet_choice("clients", 3)
-	ids := []string{"c0", "c1", "c2"}
+	n := 1 + nondet_choice("clients", verif_bound("fanout-clients-max", 3, 5))
+	ids := []string{"c0", "c1", "c2", "c3", "c4"}
 	var cs []*Client
 	for i := 0; i < n; i++ {
 		cs = append(cs, verifAddClient(t, ids[i], true))
 	}
 	except := []string{"", "c0", "c1", "c2", "nobody"}[nondet_choice("except", 5)]
 	// one operator's transport may be dead (every write to it fails)
-	dead := nondet_choice("dead-client", 4) - 1
+	dead := nondet_choice("dead-client", verif_bound("fanout-clients-max", 3, 5)+1) - 1
 	if dead >= 0 {
 		if dead < n {
 			verifConnFail[cs[dead].Connection] = 0
@@ -138,7 +138,7 @@ func H_c11_fault() {
 	_ = a
 	_ = b
 	verifWriteFault = true
-	k := 2 + nondet_choice("sends", 2)
+	k := 2 + nondet_choice("sends", verif_bound("fault-sends-extra", 2, 4))
 	for i := 0; i < k; i++ {
 		switch nondet_choice("op", 3) {
 		case 0:
@@ -181,7 +181,7 @@ func verifListenerEvent(kind int) packager.Package {
 // name, chat - stays, in order, so a newcomer's replay shows no removed listener.
 func H_c11_listener_prune() {
 	t := verifNewTeamserver(true)
-	k := 1 + nondet_choice("events", 4)
+	k := 1 + nondet_choice("events", verif_bound("prune-events-max", 4, 6))
 	var kinds []int
 	for i := 0; i < k; i++ {
 		kd := nondet_choice("kind", 5)
